@@ -60,6 +60,8 @@ def _collect_syms(v, out):
             for y in x:
                 if isinstance(y, Lin):
                     out.update(y.syms())
+                elif isinstance(y, tuple):
+                    _collect_syms(y, out)
 
 
 class StructInvariant:
@@ -115,7 +117,7 @@ class Analyzer(Interp):
         if v[0] == "int":
             return ("int", v[1].subst(m))
         if v[0] == "seq":
-            return ("seq", v[1].subst(m)) + tuple(v[2:])
+            return ("seq", v[1].subst(m), v[2]) + ((self._subst_ident(v[3], m),) if len(v) > 3 else ())
         if v[0] == "tuple":
             return ("tuple", tuple(self._subst_val(x, m) for x in v[1]))
         if v[0] == "opt" and v[2] is not None:
@@ -126,7 +128,16 @@ class Analyzer(Interp):
             return ("bool", self._subst_cond(v[1], m))
         if v[0] == "iter":
             return ("iter", v[1], tuple(x.subst(m) if isinstance(x, Lin) else x for x in v[2]))
+        if v[0] == "cts":
+            return ("cts", frozenset((self._subst_ident(i, m), pos.subst(m), text) for (i, pos, text) in v[1]))
+        if v[0] == "cbs":
+            return ("cbs", frozenset((self._subst_ident(i, m), lo.subst(m), hi.subst(m)) for (i, lo, hi) in v[1]))
         return v
+
+    def _subst_ident(self, i, m):
+        if isinstance(i, tuple) and i and i[0] == "sub":
+            return ("sub", self._subst_ident(i[1], m), i[2].subst(m))
+        return i
 
     def _subst_cond(self, c, m):
         if c is TOP or c is None:
@@ -156,6 +167,11 @@ class Analyzer(Interp):
         jsyms = {}
         for key in sorted(keys, key=_key_order):
             vals = [s.env.get(key, MISSING) for s in sides]
+            if key == CB_KEY or key == CT_KEY:
+                kind = "cbs" if key == CB_KEY else "cts"
+                sets = [v[1] if v is not MISSING and v[0] == kind else frozenset() for v in vals]
+                env[key] = (kind, frozenset.intersection(*sets))
+                continue
             if all(v == vals[0] for v in vals) and vals[0] is not MISSING:
                 env[key] = vals[0]
                 continue
@@ -181,11 +197,14 @@ class Analyzer(Interp):
                     his.append(hi)
                 flags = frozenset.intersection(*[v[2] for v in vals])
                 jsyms[j] = (key, [v[1] for v in vals], None if any(x is None for x in los) else min(los), None if any(x is None for x in his) else max(his))
-                env[key] = ("seq", jl, flags)
+                ids = {seq_ident(v) for v in vals}
+                env[key] = ("seq", jl, flags, ids.pop() if len(ids) == 1 else ("join", tag, key_str(key)))
             elif kinds == {"opt"} and len({v[3] for v in vals}) == 1:
                 tags = {v[1] for v in vals}
                 pays = {v[2] for v in vals}
                 env[key] = ("opt", vals[0][1] if len(tags) == 1 else None, vals[0][2] if len(pays) == 1 else None, vals[0][3])
+            elif kinds == {"cbs"}:
+                env[key] = ("cbs", frozenset.intersection(*[v[1] for v in vals]))
             elif kinds == {"bool"}:
                 env[key] = ("bool", TOP)
             elif kinds == {"ptr"} or kinds == {"iter"} or kinds == {"range"} or kinds == {"tuple"} or kinds == {"agg"} or kinds == {"discr"} or kinds == {"fn"}:
@@ -484,6 +503,22 @@ class Analyzer(Interp):
                 if left:
                     continue        # store into an element: lengths unchanged
                 self.ktype[key] = p["ty"]
+                if v[0] == "tuple" and not seq_kind(p["ty"]):
+                    # tuple aggregate: keep the components under their own keys so that joins work per component
+                    self.write_key(st, key, TOP)
+                    for ci, cv in enumerate(v[1]):
+                        if cv is not None and cv is not TOP:
+                            ck = (key[0], key[1], key[2] + (ci,))
+                            if cv[0] == "tuple" or cv[0] == "agg":
+                                continue
+                            st.env[ck] = cv
+                    continue
+                if (v is TOP or v[0] == "top") and s["r"]["k"] == "use" and s["r"]["a"].get("k") in ("copy", "move"):
+                    skey, sleft = self.resolve(st, frame, s["r"]["a"]["p"])
+                    self.write_key(st, key, TOP)
+                    if not sleft and skey != key:
+                        self.copy_subtree(st, skey, key)
+                    continue
                 if v[0] == "agg":
                     # struct aggregate: spread fields
                     self.write_key(st, key, TOP)
@@ -800,9 +835,6 @@ class Analyzer(Interp):
             st.env[(dst_key[0], dst_key[1], dst_key[2] + k[2][n:])] = st.env[k]
             if k in self.ktype:
                 self.ktype[(dst_key[0], dst_key[1], dst_key[2] + k[2][n:])] = self.ktype[k]
-        bk = ("bnd",) + src_key
-        if bk in st.env:
-            st.env[("bnd",) + dst_key] = st.env[bk]
 
     def bind_arg(self, st, frame, o, f2, i, ty):
         """bind operand o (of the caller's frame) to parameter i of callee frame f2"""
